@@ -144,6 +144,10 @@ func main() {
 			err = stream.NoContext(res, *seed)
 		}
 		if err == nil {
+			// reverse subscriptions across a reconnect: nothing invented on the new connection's channel
+			err = c16.ReverseSubAfterLoss(res, *seed, 97000)
+		}
+		if err == nil {
 			err = corr.SubRegVsSweep(d, res, *seed, "loss")
 		}
 	case "C09":
